@@ -39,8 +39,8 @@ CHECKS = {
          ""),
  "C17": ("arm addr (fault_enumeration-like: the product scheme (10, incl. quic and h3) x host form x port x dial_addr form, 800 combinations, is covered completely by a batch, 24 consecutive combinations per run; udp cases get a second exchange with a truncated UDP reply so that the TCP leg's dial target is checked): dial target recorded by the network facade and SNI/Host seen by a fake server vs values derived from the structured case; arm auth: 180 combinations of upstream kind x server certificate (good, wrong name, other CA, expired, not yet valid, self-signed) x option (ca, none, skip): success iff the reference predicate, and no query reaches an unauthenticated peer; arm mtls: tls/https listeners with verify_client_cert vs clients with acceptable / foreign / no certificate",
          "certificates use a fixed epoch matching the bubble's clock"),
- "C18": ("arms xclose (Close of every upstream kind at a seeded instant, twice, racing dials/exchanges/idle timers), rclose (router close during traffic), startfault (address in use, bad PEM, unknown protocol/scheme, missing file): Close returns within 1 s fake, later exchanges fail within 1 s, exchanges in flight return within 1 s of Close (not at their own deadline), after 150 s grace the simulated network shows no socket owned by the proxy, run() returns an error and leaves nothing open, no panic",
-         "a QUIC connection whose dial completes after Close is torn down by the upstream closing its quic.Transport; whether QuicTransport itself closes it is not observable through NewUpstream objects (seeded change C18-a)"),
+ "C18": ("arms latedial (reuse / pipeline / quic transports over an injected dialer whose dial completes after Close), xclose (Close of every upstream kind at a seeded instant, twice, racing dials/exchanges/idle timers), rclose (router close during traffic), startfault (address in use, bad PEM, unknown protocol/scheme, missing file): Close returns within 1 s fake, later exchanges fail within 1 s, exchanges in flight return within 1 s of Close (not at their own deadline), after 150 s grace the simulated network shows no socket owned by the proxy, run() returns an error and leaves nothing open, no panic",
+         "arm latedial builds the exported transports directly over an injected dialer that ignores its context (connections whose dial completes after Close must be closed)"),
  "C20": ("arms router / xport / prefetch with yields, stalls, GC events and failing upstreams: (1) a third of the runs of every arm use a -race build of the simulator: a DATA RACE report with a repository frame is a violation; (2) the buffer pool facade poisons on release, quarantines and verifies buffers (write-after-release, double release, aliased hand-out); (3) the object pools of dnsmsg and router (messages, records, questions, request contexts) are a facade that overwrites released objects with recognisable values, detects a second Put and a write while free, and restores them on Get; fake upstreams and the client-side oracle flag either poison pattern on the wire (read-after-release)",
          "race builds randomise scheduling, their replay is best effort; interleavings at lock boundaries / blocking points only"),
  "C19": ("router family, ample cache, lifetimes 4..600 s, bursts of hits in the last quarter from several groups, slow/failing/negative refreshes: hits are answered at once, at most one exchange in flight per (question, group) while the entry is live (for keys whose exchanges all succeed), a completed positive refresh is visible to later hits, the old entry stays usable after a failed refresh; arm prefetch adds unrelated traffic right after the hits",
